@@ -925,14 +925,45 @@ impl QuantizedCauchy {
 #[derive(Debug)]
 struct Binomial;
 
-fn binomial_distribution(n: i32, p: f64) -> probability::distribution::Binomial {
+/// A binomial distribution whose approximate inverse CDF is simply the mean.
+///
+/// `probability::distribution::Binomial::inverse` does not terminate for some valid parameters
+/// (e.g., `n = 920, p = 0.44` or `n = 1000, p = 1.0`). A `LeakilyQuantizedDistribution` uses the
+/// inverse only as a starting point for a search whose result does not depend on it, so we can
+/// use any cheap and total approximation without changing the entropy model.
+#[derive(Debug, Clone, Copy)]
+struct BinomialDistribution {
+    inner: probability::distribution::Binomial,
+    mean: usize,
+}
+
+impl probability::distribution::Distribution for BinomialDistribution {
+    type Value = usize;
+
+    #[inline]
+    fn distribution(&self, x: f64) -> f64 {
+        self.inner.distribution(x)
+    }
+}
+
+impl probability::distribution::Inverse for BinomialDistribution {
+    #[inline]
+    fn inverse(&self, _p: f64) -> usize {
+        self.mean
+    }
+}
+
+fn binomial_distribution(n: i32, p: f64) -> BinomialDistribution {
     // `probability::distribution::Binomial::new` validates `p` only in debug builds; an invalid `p`
     // (e.g., `2.0` or `NaN`) would silently yield a broken entropy model or an endless loop.
     assert!(
         (0.0..=1.0).contains(&p),
         "Invalid model parameter: `p` must be between 0.0 and 1.0 (both inclusive)."
     );
-    probability::distribution::Binomial::new(n as usize, p)
+    BinomialDistribution {
+        inner: probability::distribution::Binomial::new(n as usize, p),
+        mean: (n as f64 * p) as usize,
+    }
 }
 
 #[pymethods]
